@@ -5,7 +5,7 @@
 (* SaveIdempotent (C04/C14). Every transition, with the bytes the specification expects a     *)
 (* save to produce, is replayed on the real object and real files.                            *)
 EXTENDS EzApi, Json
-CONSTANTS NP, NA
+CONSTANTS NP, NA, Variant      \* Variant: "base" (parameters of every type, padded text cells) | "values" (calibration parameters, NaN samples, a refused set)
 
 p1 == <<112,49>>  p2 == <<112,50>>  a1 == <<97,49>>  a2 == <<97,50>>
 gG1 == <<103,49>>   \* "g1": a lower-case group name (stored upper-case in the file)
@@ -14,18 +14,26 @@ MC_PNames == IF NP >= 2 THEN {p1, p2} ELSE {p1}
 MC_ANames == IF NA >= 2 THEN {a1, a2} ELSE IF NA = 1 THEN {a1} ELSE {}
 MC_PRates == {FOfNat(100)}
 MC_ARates == {FOfNat(200), FOfNat(300)}      \* sub-frame ratio 2 or 3, also changed (in both directions) while channels are declared
-MC_FrameKinds == {"conf"}
+MC_FrameKinds == IF Variant = "values" THEN {"conf", "nan"} ELSE {"conf"}
 MC_ColKinds == {"ok1"}
 MC_Tags == {1}
 P(n, d, l, sets) == [n |-> n, d |-> d, l |-> l, sets |-> sets]
 S(t, v, dim) == [t |-> t, v |-> v, dim |-> dim, scalar |-> 0]
-MC_UserParams == <<
+AllUserParams == <<
   [g |-> gG1, p |-> P(nA, <<100, 101, 115, 99>>, 1, <<S(TINT, <<7, -3>>, <<>>)>>)],
   [g |-> gG1, p |-> P(nB, <<>>, 0, <<S(TCHAR, <<<<97, 98>>, <<99>>, <<>>>>, <<>>)>>)],
   [g |-> gG1, p |-> P(nB, <<>>, 0, <<S(TFLOAT, <<FOne, <<1,2,3,4>>, FMinusOne, <<0,0,192,127>>>>, <<2, 2>>)>>)],
   [g |-> gG1, p |-> P(nA, <<>>, 0, <<S(TCHAR, <<<<120>>>>, <<>>)>>)],
-  [g |-> gG1, p |-> P(nB, <<>>, 0, <<S(TCHAR, <<[i \in 1..200 |-> 65 + (i % 26)], <<>>, <<104, 105>>>>, <<>>)>>)]     \* cells padded by up to 200 blanks
+  [g |-> gG1, p |-> P(nB, <<>>, 0, <<S(TCHAR, <<[i \in 1..200 |-> 65 + (i % 26)], <<>>, <<104, 105>>>>, <<>>)>>)],    \* cells padded by up to 200 blanks
+  \* calibration of the analog channels, by hand: samples are stored and loaded as they are, whatever SCALE / OFFSET say
+  [g |-> sANALOG, p |-> P(sSCALE, <<>>, 0, <<S(TFLOAT, <<FOfNat(2)>>, <<>>)>>)],
+  [g |-> sANALOG, p |-> P(sOFFSET, <<>>, 0, <<S(TINT, <<5>>, <<>>)>>)],
+  \* a refused set (3 announced, 2 given) after an accepted one: the parameter keeps its one value and its dimension, and is saved so
+  [g |-> gG1, p |-> P(<<67>>, <<>>, 0, <<S(TINT, <<7>>, <<>>), S(TINT, <<7, -3>>, <<3>>)>>)],
+  \* a byte-typed parameter (taken from a loaded object, see DonorFile): one byte per value on the disk, signed
+  [g |-> gG1, p |-> P(<<68>>, <<98>>, 0, <<S(TBYTE, <<3, -2, 127, -128, 0>>, <<>>)>>)]
 >>
+MC_UserParams == IF Variant = "values" THEN SubSeq(AllUserParams, 6, 9) ELSE SubSeq(AllUserParams, 1, 5)
 MC_LockNames == {}
 MC_CallerIds == {}
 MC_Files == <<>>
